@@ -53,8 +53,16 @@ def run (ctx):
       for t, v, st, k in q.stores_in(f.node):
         if isinstance(t, ast.Name) and v is not None and t.id not in filt and (('port_no !=' in norm(v) and 'self._ports' in norm(v)) or any(isinstance(x_, ast.Name) and x_.id in filt for x_ in ast.walk(v))): filt.add(t.id)
     tgt |= set(t.id for t, v, st, k in q.stores_in(f.node) if isinstance(t, ast.Name) and t.id in filt and any(norm(t2) == 'self._ports' and isinstance(v2, ast.Name) and v2.id == t.id for t2, v2, st2, k2 in q.stores_in(f.node)))
+    counted_locals = set()
     for t, v, st, k in q.stores_in(f.node):
-      if norm(t) in tgt and v is not None and ('port_no !=' in norm(v) or (norm(t) == 'self._ports' and any(isinstance(x_, ast.Name) and x_.id in filt for x_ in ast.walk(v)))): drops.append(q.enclosing_stmt_node(g, st))
+      if norm(t) in tgt and v is not None and 'port_no !=' in norm(v):
+        drops.append(q.enclosing_stmt_node(g, st))
+        if isinstance(t, ast.Name): counted_locals.add(t.id)
+    for t, v, st, k in q.stores_in(f.node):
+      # the filtered copy becomes the set (one drop per chain: not again when the local that was counted is merely installed)
+      if norm(t) == 'self._ports' and v is not None and 'port_no !=' not in norm(v):
+        used_ = set(x_.id for x_ in ast.walk(v) if isinstance(x_, ast.Name) and x_.id in filt)
+        if used_ and not (used_ & counted_locals) and not any(u_ in counted_locals for u_ in used_): drops.append(q.enclosing_stmt_node(g, st))
     for c in calls_in(f.node):
       if call_name(c) in ('discard', 'remove') and norm(c.func.value) in tgt: drops.append(q.enclosing_stmt_node(g, c))
     port_add = g.nodes_with_call(lambda c: call_name(c) == 'add' and norm(c.func.value) in tgt)
